@@ -125,6 +125,7 @@ class Axi2ClkFSM(py4hw.Logic):
                 
         elif (self.state == 3): # END
             self.load_outs.prepare(1)
+            self.clk_count.prepare(0)   # a beat accepted right after END must count from 0
             self.state = 0
           
               
